@@ -384,6 +384,16 @@ fn mk_handler(
             let mut env: Vec<(Vec<u8>, Vec<u8>)> =
                 req.env_iter().map(|(k, v)| (k.as_ref().as_bytes().to_vec(), v.to_vec())).collect();
             env.sort();
+            // the async Request's accessors are thin wrappers: they must agree with the iteration
+            assert_eq!(env.len(), req.env_len());
+            for (k, v) in &env {
+                let ks = std::str::from_utf8(k).expect("keys are strings");
+                let name = fastcgi_server::cgi::VarName::new(ks);
+                assert_eq!(req.get_var(name), Some(&v[..]));
+                assert!(req.contains_var(name));
+                assert_eq!(req.get_var_str(name), std::str::from_utf8(v).ok());
+            }
+            assert!(!req.contains_var(fastcgi_server::cgi::VarName::new("FV_NO_SUCH_VARIABLE")));
             e.push(vec![u128::from(u16::from(req.role())), u128::from(u8::from(req.flags())), env.len() as u128,
                         req.active_stream().map_or(0, |t| u128::from(u8::from(t))), u128::from(req.is_writeable())]);
             for (k, v) in env {
